@@ -148,6 +148,19 @@ func runC11(rc *RunCtx) {
 	}
 	tok, tokAcc, err := h.CreateToken("", map[string]any{"policies": []string{"p"}, "ttl": "1h"})
 	must(err)
+	// how the token reaches the Core (as the HTTP layer hands it over) and
+	// whether the operator audits the token-bearing headers themselves: the
+	// Core strips the credential from the headers before anything is audited
+	via := []string{"", "header", "bearer"}[tp.Pick(3)]
+	hdrMode := tp.Pick(3)
+	rc.Cfg("token_via", via)
+	rc.Cfg("audited_auth_headers", []string{"none", "plain", "hmac"}[hdrMode])
+	if hdrMode > 0 {
+		for _, hn := range []string{"X-Vault-Token", "Authorization", "X-Request-Tag"} {
+			_, err := h.RootWrite("sys/config/auditing/request-headers/"+hn, map[string]any{"hmac": hdrMode == 2})
+			must(err)
+		}
+	}
 
 	var canaries []string
 	nc := 0
@@ -158,11 +171,21 @@ func runC11(rc *RunCtx) {
 		return c
 	}
 	canaries = append(canaries, tok)
-	kinds := []string{"echo", "write", "read", "wrapped", "login", "tcreate", "list", "wrapped-jwt"}
+	kinds := []string{"echo", "write", "read", "wrapped", "login", "tcreate", "list", "wrapped-jwt", "denied", "denied-write"}
 	_, err = h.RootWrite("rec/data/pre", map[string]any{"value": canary("stored")})
 	must(err)
+	var mkReq0 func(kind string) Req
 	mkReq := func(kind string) Req {
+		r := mkReq0(kind)
+		r.Via = via
+		return r
+	}
+	mkReq0 = func(kind string) Req {
 		switch kind {
+		case "denied": // a valid token, a path its policy does not grant
+			return Req{Op: logical.ReadOperation, Path: "sys/policies/acl/p", Token: tok}
+		case "denied-write":
+			return Req{Op: logical.UpdateOperation, Path: []string{"sys/policies/acl/zz", "nowhere/x"}[tp.Pick(2)], Token: tok, Data: map[string]any{"policy": canary("denied-body")}}
 		case "echo":
 			return Req{Op: logical.UpdateOperation, Path: "rec/echo", Token: tok, Data: genPayload(tp, 2, canary, "plainreq", "plainresp")}
 		case "write":
